@@ -86,5 +86,33 @@ P = histprop.HistProp(
           "empty); seek on append handles on the in-memory configurations only; "
           "every handle call's return value and the published bytes are compared, in debug and release builds"),
     assumptions=["write positions stay small (Vec allocation)", "std::io::Cursor semantics as stated in Base/Handles.v"])
-generate, corpus, run_and_compare, known = P.generate, P.corpus, P.run_and_compare, P.known
-RULE, ASSUMPTIONS, BUILDS = P.RULE, P.ASSUMPTIONS, P.BUILDS
+generate, corpus, known = P.generate, P.corpus, P.known
+ASSUMPTIONS, BUILDS = P.ASSUMPTIONS, P.BUILDS
+RULE = P.RULE + ("; the ASYNC port's read handles: seek / read scripts over both ends (failing seeks followed by reads, reads "
+                 "after a drain) on memory, altroot, overlay and physical backends, compared with the sync handles and the async model")
+
+
+def run_and_compare(cases, tier):
+    from props import c15
+    res = P.run_and_compare(cases, tier)
+    sub = hist.reader_seek_cases("c14a", ["mem", "alt_mem", "ovl_mm", "phys"])
+    sync, asy, pend, amodel = c15.run_variants(sub, "c14a", seed=14)
+    by = {c.name: c for c in sub}
+    seen = set()
+    n = 0
+    for k in sorted(set(sync) | set(asy) | set(pend) | set(amodel), key=lambda k: (k[1], k[2], k[0])):
+        kind, cname, step = k
+        if kind != "r" or cname in seen:
+            continue
+        c = by[cname]
+        op = c.ops[step] if step < c.nops else ""
+        views = [histprop.abstract_errors(hist.strip_times(x)) if x is not None else None for x in (sync.get(k), asy.get(k), pend.get(k), amodel.get(k))]
+        n += 1
+        if len(set(views)) > 1:
+            seen.add(cname)
+            res["disagreements"].append({"case": cname, "case_text": c.text(), "step": step, "op": op, "kind": "r", "model": amodel.get(k),
+                                         "impl": asy.get(k), "violates": True,
+                                         "note": "async read handle at `%s`: sync %s / async %s / pending %s / async model %s" % (
+                                             op[:40], (views[0] or "")[:60], (views[1] or "")[:60], (views[2] or "")[:60], (views[3] or "")[:60])})
+    res["stats"].setdefault("distribution", {})["async_reader_lines_compared"] = n
+    return res
